@@ -322,7 +322,22 @@ func (fv *FuncVC) resolveModifies(con *Contract, env *Env) []modTarget {
 				add("*", "", "")
 				continue
 			case "locks":
-				add("LOCK", "(Array Int Int)", "")
+				// only the mutexes the contract talks about (held(...) in ensures) may change state
+				found := false
+				for _, e := range con.Ensures {
+					ast.Inspect(e.Expr, func(nd ast.Node) bool {
+						if ce, ok := nd.(*ast.CallExpr); ok {
+							if id, ok := ce.Fun.(*ast.Ident); ok && id.Name == "held" && len(ce.Args) == 1 {
+								add("LOCK", "(Array Int Int)", env.addrOf(ce.Args[0]))
+								found = true
+							}
+						}
+						return true
+					})
+				}
+				if !found {
+					add("LOCK", "(Array Int Int)", "")
+				}
 				continue
 			}
 			if gt, ok := g.spec.Ghosts[n.Name]; ok {
